@@ -5,6 +5,7 @@
 // error the gateway can be Reset() and then delivers a good stream.
 #include "models/refmsg.h"
 #include "models/hostile.h"
+#include <map>
 #include "transport/choppy.h"
 #include "iogateway/MessageIOGateway.h"
 #include "iogateway/TemplatingMessageIOGateway.h"
@@ -87,11 +88,26 @@ static AbstractMessageIOGatewayRef MakeGateway(int kind, bool sender)
    return AbstractMessageIOGatewayRef();
 }
 
+// known finding F11 (C03): TemplateHashCode64 collides structurally, and a templating sender then serialises a Message through another shape's cached template (its DataFlattener
+// aborts on the size mismatch).  The valid streams this harness makes for the templating gateway keep to one shape per hash code; what is left out is counted.
+static std::string ShapeOf(const MMsg & m)
+{
+   std::string s = "{";
+   for (size_t i=0; i<m.f.size(); i++) {const MField & f = m.f[i]; char b[48]; snprintf(b, sizeof(b), "%u*%zu", f.tc, f.items.size()); s += f.name+":"+b; if (f.tc == B_MESSAGE_TYPE) for (size_t k=0; k<f.subs.size(); k++) s += ShapeOf(*f.subs[k]); s += ";";}
+   return s+"}";
+}
+static std::map<uint64, std::string> * g_templShapes = NULL;     // set while a templating sender is being fed
+
 static MessageRef GenPayloadMsg(vf::BS & bs, int kind)
 {
    if ((kind == G_TEXT)||(kind == G_TELNET)) {MessageRef m = GetMessageFromPool(PR_COMMAND_TEXT_STRINGS); const uint32 n = 1+bs.u8()%3; for (uint32 i=0; i<n; i++) (void) m()->AddString(PR_NAME_TEXT_LINE, String("line of text 0123456789").Substring(0, bs.u8()%23)); return m;}
    if ((kind == G_RAW)||(kind == G_RAWMIN)||(kind == G_SLIP)) {MessageRef m = GetMessageFromPool(PR_COMMAND_RAW_DATA); std::string c; const uint32 n = 1+bs.u8()%60; for (uint32 i=0; i<n; i++) c.push_back((char)bs.u8()); (void) m()->AddData(PR_NAME_DATA_CHUNKS, B_RAW_TYPE, c.data(), (uint32)c.size()); return m;}
    MessageRef m = GetMessageFromPool(); MMsg mod; GenOpts o; o.allowNonFlattenable = false; o.maxTopOps = 6; o.maxDepth = 2; o.allowBursts = false; Generator g(bs, o); g.Gen(0, *m(), mod);
+   if ((g_templShapes)&&(vf::AllowKnown("F11") == false))
+   {
+      const uint64 hc = m()->TemplateHashCode64(); const std::string sh = ShapeOf(mod); std::map<uint64, std::string>::iterator it = g_templShapes->find(hc);
+      if (it == g_templShapes->end()) (*g_templShapes)[hc] = sh; else if (it->second != sh) {vf::Excluded("F11"); return GetMessageFromPool(4711);}     // (a field-less Message instead: those bypass the templates)
+   }
    return m;
 }
 
@@ -128,6 +144,7 @@ static void ProduceValid(int kind, vf::BS & bs, std::string & wire, std::vector<
       return;
    }
    Pipe pipe, back; Plan plan(&bs); plan.generous = true;
+   std::map<uint64, std::string> templShapes; struct ShapeScope {ShapeScope(std::map<uint64, std::string> * m, bool on) {g_templShapes = on ? m : NULL;} ~ShapeScope() {g_templShapes = NULL;}} shapeScope(&templShapes, kind == G_TEMPL);
    AbstractMessageIOGatewayRef snd = MakeGateway(kind, true);
    if (snd() == NULL) return;
    ChopIO sio(&back, &pipe, &plan); snd()->SetDataIO(DummyDataIORef(sio));
